@@ -210,42 +210,33 @@ theorem bind_ok {ε α β : Type} (x : Except ε α) (f : α → Except ε β) (
     (x >>= f) = .ok b ↔ ∃ a, x = .ok a ∧ f a = .ok b := by
   cases x <;> simp [bind, Except.bind]
 
-theorem pendingDiffName_reachC (cfg : Cfg) {m0 m m' : M} (h : ReachC m0 m)
-    (e : pendingDiffName cfg m = .ok m') : ReachC m0 m' ∧ m'.st = m.st := by
-  unfold pendingDiffName at e
-  split at e
-  · cases e; exact ⟨h, rfl⟩
-  · split at e
-    · simp only [bind_ok, pure, Except.pure, Except.ok.injEq] at e
-      obtain ⟨a, _, rfl⟩ := e
-      exact ⟨h.emit.writeGeneric cfg _ _ (by simp), by simp⟩
-    · split at e
-      · cases e; exact ⟨h, rfl⟩
-      · simp only [bind_ok, pure, Except.pure, Except.ok.injEq] at e
-        obtain ⟨a, _, e⟩ := e
-        split at e
-        · cases e
-          exact ⟨(h.emit.handleHeaderLine cfg (decide (m.source = Source.diffUnified)) (by simp)).upd
+theorem pendingDiffName_reachC (cfg : Cfg) {m0 m : M} (h : ReachC m0 m) :
+    ReachC m0 (pendingDiffName cfg m) ∧ (pendingDiffName cfg m).st = m.st := by
+  unfold pendingDiffName
+  split
+  · exact ⟨h, rfl⟩
+  · split
+    · exact ⟨h.emit.writeGeneric cfg _ _ (by simp), by simp⟩
+    · split
+      · exact ⟨h, rfl⟩
+      · split
+        · exact ⟨(h.emit.handleHeaderLine cfg (decide (m.source = Source.diffUnified)) (by simp)).upd
             rfl rfl rfl rfl rfl rfl, by simp⟩
-        · cases e; exact ⟨h, rfl⟩
+        · exact ⟨h, rfl⟩
 
 /-- `pendingDiffName` never puts anything into the line buffers -/
-theorem pendingDiffName_quiet (cfg : Cfg) {m m' : M} (hm : m.minus = []) (hp : m.plus = [])
-    (e : pendingDiffName cfg m = .ok m') : m'.minus = [] ∧ m'.plus = [] := by
-  unfold pendingDiffName at e
-  split at e
-  · cases e; exact ⟨hm, hp⟩
-  · split at e
-    · simp only [bind_ok, pure, Except.pure, Except.ok.injEq] at e
-      obtain ⟨a, _, rfl⟩ := e
-      simp [hm, hp]
-    · split at e
-      · cases e; exact ⟨hm, hp⟩
-      · simp only [bind_ok, pure, Except.pure, Except.ok.injEq] at e
-        obtain ⟨a, _, e⟩ := e
-        split at e
-        · cases e; simp [Machine.handleHeaderLine, hm, hp]
-        · cases e; exact ⟨hm, hp⟩
+theorem pendingDiffName_quiet (cfg : Cfg) {m : M} (hm : m.minus = []) (hp : m.plus = []) :
+    (pendingDiffName cfg m).minus = [] ∧ (pendingDiffName cfg m).plus = [] := by
+  unfold pendingDiffName
+  split
+  · exact ⟨hm, hp⟩
+  · split
+    · simp [hm, hp]
+    · split
+      · exact ⟨hm, hp⟩
+      · split
+        · simp [Machine.handleHeaderLine, hm, hp]
+        · exact ⟨hm, hp⟩
 
 /-- what a handler has to deliver -/
 structure Step (m m' : M) : Prop where
